@@ -25,9 +25,9 @@ ops
 Predicates.  `geom`, `bits`, `coll`: what comes back equals what went in (`roundtrip`).  `feat i` (only when every feature of
 the collection is well shaped): GeoJSON feature `i` is found once, under the expected kind, with the same geometry
 (loops compared as cycles in either direction, a polygon as a set of loops, ring 0 outer and the others holes) and
-every property readable by key (`import_one_per_feature`).  Failures in the two recorded classes carry
-`class=multi-geometry-dropped` (the feature is a MultiPoint / MultiLineString) or `class=reserved-property-key` (`reservedClash`
-is true of the feature, or of an earlier feature at which `Apply` stopped so that this one was never added).
+every property readable under its stored key (`storedKey`: `geojson:point` / `geojson:path` for the two reserved keys, the
+key itself otherwise) (`import_one_per_feature`).  Failures in the recorded class carry `class=multi-geometry-dropped`
+(the feature is a MultiPoint / MultiLineString).
 -/
 open B6.Driver B6.Model.GeoJSON
 namespace B6.Driver.C32
@@ -255,7 +255,7 @@ def faithful (f : Feature Int) (found : List Found) : Bool :=
     x.kind == kindName t
     && x.obs.canon.render == (obsOfModel g).canon.render
     && f.props.all fun kv =>
-        (x.tags.find? fun tg => tg.startsWith (kv.1 ++ "=")) == some (kv.1 ++ "=s:" ++ kv.2)
+        (x.tags.find? fun tg => tg.startsWith (storedKey kv.1 ++ "=")) == some (storedKey kv.1 ++ "=s:" ++ kv.2)
   | _, _ => false
 
 def step (st : St) (op impl : String) : St × Verdict :=
@@ -330,12 +330,7 @@ def step (st : St) (op impl : String) : St × Verdict :=
           let implCanon := renderAnswer found
           let applicable := st.coll.all fun g => wellShaped g.geom
           if applicable && !faithful f found then
-            let cls :=
-              if !importable f.geom then " class=multi-geometry-dropped"
-              else if reservedClash f || (!st.applyOk && modelFound.isEmpty && st.coll.any reservedClash) then
-                -- the feature itself clashes, or the model's Apply stopped at an earlier clashing feature
-                " class=reserved-property-key"
-              else ""
+            let cls := if !importable f.geom then " class=multi-geometry-dropped" else ""
             (st, .propfail ("import_one_per_feature" ++ cls))
           else (st, if implCanon == model then .ok else .diff model)
   | _ => (st, .bad)
